@@ -154,3 +154,56 @@ func FuzzC09(f *testing.F) {
 	sec := stats.Sec("native_fuzz", rule)
 	f.Fuzz(rapid.MakeFuzz(func(t *rapid.T) { prop(t, sec, 4) }))
 }
+
+// TestC09FilterReuse: one long-lived Filter whose exported FilterOperationOverrides map is modified IN PLACE
+// between events (the documented way to change overrides at run time).
+func TestC09FilterReuse(t *testing.T) {
+	sec := stats.Sec("filter_reuse", "rapid: one Filter processes 2-6 generated payloads; between events its FilterOperationOverrides map is modified in place (keys set to none/redact/encrypt/hmac-sha256 or deleted); every event is judged against the overrides in force when it was processed, with the no-leak / form / fail-closed oracle; non-trivial = an override was tightened or changed in place between two events with protected leaves; distinct = history descriptor")
+	rapid.Check(t, func(t *rapid.T) {
+		c := encrun.GenFCfg(t, false)
+		if c.Overrides == nil {
+			c.Overrides = map[string]string{}
+		}
+		f := c.Filter()
+		if f.FilterOperationOverrides == nil {
+			f.FilterOperationOverrides = map[encrypt.DataClassification]encrypt.FilterOperation{}
+		}
+		n := rapid.IntRange(2, 6).Draw(t, "events")
+		var hist []string
+		changed := 0
+		for i := 0; i < n; i++ {
+			if i > 0 {
+				for _, cls := range []string{"sensitive", "secret", "public"} {
+					switch rapid.IntRange(0, 3).Draw(t, fmt.Sprintf("mut-%s-%d", cls, i)) {
+					case 0:
+						op := rapid.SampledFrom([]string{"", "redact", "encrypt", "hmac-sha256"}).Draw(t, "newOp")
+						if old, ok := c.Overrides[cls]; !ok || old != op {
+							changed++
+						}
+						c.Overrides[cls] = op
+						f.FilterOperationOverrides[encrypt.DataClassification(cls)] = encrypt.FilterOperation(op) // in place
+					case 1:
+						if _, ok := c.Overrides[cls]; ok {
+							changed++
+						}
+						delete(c.Overrides, cls)
+						delete(f.FilterOperationOverrides, encrypt.DataClassification(cls))
+					}
+				}
+			}
+			p := payload.Gen(t, 2)
+			hist = append(hist, c.String()+" "+p.String())
+			r, herr := encrun.RunOn(f, p, c)
+			if herr != nil {
+				t.Fatalf("harness self-check failed (not a finding): %v", herr)
+			}
+			for _, fd := range r.Findings {
+				if fd.Prop != "C09" || stats.Known(fd.Sig) {
+					continue
+				}
+				t.Fatalf("VIOLATION C09: event %d on a reused filter: %s [sig %s]\nhistory: %s", i, fd.Msg, fd.Sig, strings.Join(hist, " ;; "))
+			}
+		}
+		sec.Case(changed > 0, strings.Join(hist, " ;; "), fmt.Sprintf("override_changes>0=%v", changed > 0))
+	})
+}
